@@ -427,7 +427,7 @@ async fn run_one_batch(fix: &Fixture, ws: &mut WsPeer, entries: &[Entry], js: &[
 			if let Some(Value::Array(elems)) = &reply {
 				for (i, w) in wants_t.iter().enumerate() {
 					if let Want::Reply { payload, .. } = w {
-						if *payload == Payload::Skip || !matches!(entries[i], Entry::Obj(_)) {
+						if matches!(payload, Payload::Skip | Payload::Bound) || !matches!(entries[i], Entry::Obj(_)) {
 							continue;
 						}
 						// the very same text the entry had inside the array (error texts quote line/column positions)
